@@ -31,6 +31,9 @@ CLAIMED = {
  "C10": dict(tech="resolved call graph from run_to_completion with exception-containment cut: frontier edges into evaluator-reaching functions must lie inside the per-flow try or be triaged table entries; handler shape; API-level try in process_events",
              text="Claims the ISOLATION clause only: every call edge from the uncontained event loop into a function that can evaluate Colang expressions (or raise Colang errors) is either inside the per-flow try whose handler fails only that flow, a benign edge with a stated reason, or a demonstrated known finding (F8.1-F8.4); process_events converts escaping exceptions into a ColangError event with a handler that cannot raise. Termination is not decided by this family.",
              ref="DESIGN.md C10"),
+ "C13": dict(tech="exception-conversion totality: lexical try coverage of the parse call, per-handler raise discipline, guarded-read / bounded-index analysis of everything the handler evaluates on the caught exception (through the resolved call graph); grammar-text facts; regex AST star-height check (thorough)",
+             text="Decides the error-path clause: reading and parsing a Colang file happen inside a try with a handler for Exception, every handler ends by raising ColangParsingError naming the path, and everything evaluated on the caught exception tolerates an arbitrary exception object. Layout invariance is only backed by grammar-level necessary facts; parser termination is not decided. Found and repaired F11.",
+             ref="DESIGN.md C13"),
 }
 NA = {
  "C18": "equality of string results over all chunkings of a stateful transducer; no structural necessary condition that is not a brittle proxy (DESIGN.md C18)",
